@@ -1,5 +1,13 @@
 import ParryModel.Field
 import ParryModel.C13.Model
+/-!
+# C13: specification vocabulary and helper lemmas (not property obligations)
+
+The `def`s of this file are the *specification side* of the C13 theorems (plain field expressions, no model code):
+observables of a `MassProperties` value, moments of a family of parts, triangle / polygon closed forms.  The `theorem`s are
+helpers: how the lawless `Num` operations (`neq`, `inv`, `sqrt`, folds) read at the lawful instance, polynomial identities,
+list-sum manipulations.
+-/
 namespace C13
 open Model Model.Mass
 
@@ -16,8 +24,11 @@ theorem inv_spec (v : K) : @Mass.inv K (fieldNum K sq) v = v⁻¹ := by
   · rw [fieldNum_neq] at h; subst h; simp
   · simp
 
+/-- the mass a 2-D `MassProperties` value stands for (`inv_mass⁻¹`, with `0⁻¹ = 0` as in `utils::inv`) -/
 def massOf (a : MP2 K) : K := a.invMass⁻¹
+/-- the angular inertia about the centre of mass it stands for (`(inv_principal_inertia_sqrt²)⁻¹`) -/
 def inertiaOf (a : MP2 K) : K := (a.invI * a.invI)⁻¹
+/-- second (polar) moment about an arbitrary point `p`, by the parallel-axis theorem: `I + m |p − com|²` -/
 def momentAbout (a : MP2 K) (p : V2 K) : K :=
   inertiaOf a + massOf a * ((p.x - a.com.x) ^ 2 + (p.y - a.com.y) ^ 2)
 
@@ -59,6 +70,7 @@ theorem add_core (m1 m2 c1x c1y c2x c2y px py : K) (hM : m1 + m2 ≠ 0) :
   field_simp
   ring
 
+/-- two values describe the same body up to moments: equal mass, first moment `mass·com`, and second moment about every point -/
 def SameMoments (a b : MP2 K) : Prop :=
   massOf a = massOf b ∧ a.com.x * massOf a = b.com.x * massOf b ∧ a.com.y * massOf a = b.com.y * massOf b ∧
   ∀ p : V2 K, momentAbout a p = momentAbout b p
@@ -107,6 +119,7 @@ theorem sumSqSides_nonneg (t : Triangle2 K) : 0 ≤ sumSqSides t := by
 
 
 /-! ### moments of a finite family of parts -/
+/-- total mass / first moment (x, y) / second moment about `p` of a finite family of parts -/
 def totMass (ps : List (MP2 K)) : K := (ps.map massOf).sum
 def totFx (ps : List (MP2 K)) : K := (ps.map fun a => a.com.x * massOf a).sum
 def totFy (ps : List (MP2 K)) : K := (ps.map fun a => a.com.y * massOf a).sum
